@@ -588,7 +588,8 @@ def s_history(draw):
         k = draw(st.sampled_from(kinds))
         slot = draw(st.integers(0, 31))
         if k == "set":
-            steps.append([k, slot, draw(s_name()), draw(s_lshape())])
+            # the 5th entry (optional) makes one set in three re-use a name the manager already holds (a replacement)
+            steps.append([k, slot, draw(s_name()), draw(s_lshape()), draw(st.integers(0, 31))])
         elif k in ("get", "del", "get_missing"):
             steps.append([k, slot, draw(s_name()), draw(st.integers(0, 31))])
         elif k in ("get_none", "query", "copy"):
@@ -809,6 +810,9 @@ def c_history(case, ctx):
         m, model = s.manager, s.model
         if k == "set":
             name, spec = step[2], step[3]
+            if len(step) > 4 and step[4] % 3 == 0 and len(model) > 0:
+                name = list(model)[(step[4] // 3) % len(model)]
+                ctx.event("set replaces an existing group")
             sh = build_lshape(spec)
             d_sh = rs.ndigest(sh)
             cur = s.dims()
